@@ -54,22 +54,19 @@ def close(got, exp, tol=1e-9):
     return bool(abs(got - exp) <= tol * max(1.0, abs(exp)))
 
 
-def cmp_matrix(got, exp, zero):
+def cmp_matrix(got, exp, zero, tol=1e-9):
     """got: ndarray; exp: nested list of floats; zero: nested list of bool (spec says exactly zero).
-    Returns a list of (i, j, got, exp, why) disagreements."""
-    bad = []
-    got = np.asarray(got)
-    if got.shape != (len(exp), len(exp[0])):
-        return [(-1, -1, repr(got.shape), repr((len(exp), len(exp[0]))), "shape")]
-    for i, row in enumerate(exp):
-        for j, e in enumerate(row):
-            g = float(got[i, j])
-            if zero[i][j]:
-                if not g == 0.0:
-                    bad.append((i, j, g, 0.0, "spec value is exactly 0"))
-            elif not close(g, e):
-                bad.append((i, j, g, e, "differs"))
-    return bad
+    Returns a list of (i, j, got, exp, why) disagreements: exact `== 0.0` where the spec value is exactly zero,
+    |got - exp| <= tol * max(1, |exp|) elsewhere (NaN never passes)."""
+    got = np.asarray(got, dtype=float)
+    exp = np.asarray(exp, dtype=float)
+    zero = np.asarray(zero, dtype=bool)
+    if got.shape != exp.shape:
+        return [(-1, -1, repr(got.shape), repr(exp.shape), "shape")]
+    with np.errstate(all="ignore"):
+        ok = np.where(zero, got == 0.0, np.abs(got - exp) <= tol * np.maximum(1.0, np.abs(exp)))
+    return [(int(i), int(j), float(got[i, j]), float(exp[i, j]),
+             "spec value is exactly 0" if zero[i, j] else "differs") for i, j in zip(*np.nonzero(~ok))]
 
 
 # ---- float first-principles oracle for real-valued inputs (numeric side check only) ---------------------------------
@@ -84,11 +81,12 @@ def hier_min_float(v, u, alpha, M):
 
     def phi(b):
         return 0.5 * (b - nv) ** 2 + alpha * b + 0.5 * np.sum(np.maximum(au - M * b, 0) ** 2)
-    bps = sorted(set([0.0] + ([float(a / M) for a in au] if M > 0 else [])))
+    ratio = au / M if M > 0 else np.full(len(au), math.inf)     # breakpoints |u_j|/M (M = 0: never reached)
+    bps = sorted(set([0.0] + [float(x) for x in ratio if x < math.inf]))
     cands = []
     for i, lo in enumerate(bps):
         hi = bps[i + 1] if i + 1 < len(bps) else math.inf
-        act = au > M * lo
+        act = (ratio > lo) & (au > 0)       # compared on the very floats that define the pieces: no rounding mismatch
         b = (nv - alpha + M * au[act].sum()) / (1 + act.sum() * M * M)
         cands.append(min(max(b, lo), hi))
     b = min(cands, key=phi)
